@@ -72,6 +72,8 @@ struct TlsState {
     consumed: usize,
     greeting_len: Option<usize>,
     ssl_request_sent: bool,
+    /// framed SSL request to send instead of the usual HandshakeResponse41-style one
+    ssl_req: Option<Vec<u8>>,
     script_written: bool,
     script: Vec<u8>,
     decrypted: Vec<u8>,
@@ -101,7 +103,10 @@ impl TlsState {
         }
         if !self.ssl_request_sent {
             let caps = CAP_LONG_PASSWORD | CAP_PROTOCOL_41 | CAP_SECURE_CONNECTION | CAP_SSL;
-            self.to_server.extend_from_slice(&frame(1, &ssl_request(caps, 1 << 24, 0x21)).0);
+            match self.ssl_req.take() {
+                Some(r) => self.to_server.extend_from_slice(&r),
+                None => self.to_server.extend_from_slice(&frame(1, &ssl_request(caps, 1 << 24, 0x21)).0),
+            }
             self.ssl_request_sent = true;
         }
         // 2. server bytes after the greeting go to the TLS client
@@ -223,14 +228,18 @@ struct TlsOutcome {
 }
 
 fn script() -> (Vec<u8>, Conv, Vec<u8>) {
+    script_with(2)
+}
+
+fn script_with(hs_seq: u8) -> (Vec<u8>, Conv, Vec<u8>) {
     let caps = CAP_LONG_PASSWORD | CAP_PROTOCOL_41 | CAP_SECURE_CONNECTION | CAP_SSL;
-    let hs = frame(2, &handshake41(caps, 1 << 24, 0x21, b"tls-user", &[0])).0;
+    let hs = frame(hs_seq, &handshake41(caps, 1 << 24, 0x21, b"tls-user", &[0])).0;
     let mut big = b"big ".to_vec();
     big.extend((0..20_000).map(|i| b'a' + (i % 26) as u8));
     let cmds = vec![q(b"SELECT 1"), ClientCmd::new(with_byte(COM_STMT_PREPARE, b"id=1 p=0")), ClientCmd::new(cmd_execute(1, 0, 1, &[])), q(&big), ping(), quit()];
     let mut conv = Conv::new(cmds);
     conv.handshake = hs;
-    conv.hs_seq = 2;
+    conv.hs_seq = hs_seq;
     let s = conv.stream();
     (s.bytes, conv, s.last_seq)
 }
@@ -240,7 +249,12 @@ fn run_tls(server_tls: Option<Arc<rustls::ServerConfig>>, client_cert: bool, cut
 }
 
 fn run_tls_with(server_tls: Option<Arc<rustls::ServerConfig>>, client_cert: bool, cuts: Vec<usize>, uniform: usize, alpn_pad: usize, tls12: bool) -> TlsOutcome {
-    let (bytes, _, _) = script();
+    run_tls_full(server_tls, client_cert, cuts, uniform, alpn_pad, tls12, None, 2)
+}
+
+#[allow(clippy::too_many_arguments)]
+fn run_tls_full(server_tls: Option<Arc<rustls::ServerConfig>>, client_cert: bool, cuts: Vec<usize>, uniform: usize, alpn_pad: usize, tls12: bool, ssl_req: Option<Vec<u8>>, hs_seq: u8) -> TlsOutcome {
+    let (bytes, _, _) = script_with(hs_seq);
     let client = rustls::ClientConnection::new(client_config(client_cert, alpn_pad, tls12), ServerName::try_from("localhost").unwrap()).unwrap();
     let st = TlsState {
         client,
@@ -252,6 +266,7 @@ fn run_tls_with(server_tls: Option<Arc<rustls::ServerConfig>>, client_cert: bool
         consumed: 0,
         greeting_len: None,
         ssl_request_sent: false,
+        ssl_req,
         script_written: false,
         script: bytes,
         decrypted: Vec::new(),
@@ -309,6 +324,10 @@ fn only_tls_records(b: &[u8]) -> Result<usize, String> {
 }
 
 fn judge(o: &TlsOutcome, client_cert: bool, what: &str, st: &mut Stats) -> Result<(), Violation> {
+    judge_with(o, client_cert, what, 2, st)
+}
+
+fn judge_with(o: &TlsOutcome, client_cert: bool, what: &str, hs_seq: u8, st: &mut Stats) -> Result<(), Violation> {
     if let ConnResult::Panic(l, m) = &o.res {
         return Err(Violation::new(panic_key(l, m), format!("{}: run_on panicked at {}: {}", what, l, m)));
     }
@@ -344,14 +363,14 @@ fn judge(o: &TlsOutcome, client_cert: bool, what: &str, st: &mut Stats) -> Resul
         }
         other => return Err(Violation::new("auth-missing", format!("{}: first callback is {:?}", what, other.map(cb_short)))),
     }
-    let (_, conv0, _) = script();
+    let (_, conv0, _) = script_with(hs_seq);
     let big_text = String::from_utf8(conv0.cmds[3].payload[1..].to_vec()).unwrap();
     let expected = vec![o.log[0].clone(), Cb::Query("SELECT 1".into()), Cb::Prepare("id=1 p=0".into()), Cb::Execute { id: 1, params: vec![] }, Cb::Query(big_text)];
     if o.log != expected {
         return Err(Violation::new("commands-differ", format!("{}: callback log {:?}", what, o.log.iter().map(cb_short).collect::<Vec<_>>())));
     }
     // decrypted replies: auth OK at id 3, then one reply per command
-    let (_, conv, last_seq) = script();
+    let (_, conv, last_seq) = script_with(hs_seq);
     let mut all = o.st.from_server[..g].to_vec();
     all.extend_from_slice(&o.st.decrypted);
     let d = decode_all(&all, &conv, &last_seq, 5, false).map_err(|e| Violation::new("decrypted-replies", format!("{}: {}", what, e)))?;
@@ -367,17 +386,61 @@ fn judge(o: &TlsOutcome, client_cert: bool, what: &str, st: &mut Stats) -> Resul
     Ok(())
 }
 
+
+/// cut positions for the single-split families. Thorough: every position of the stream. Quick:
+/// every position of the first 1600 bytes (SSL request, the whole TLS handshake, the encrypted
+/// handshake response and first commands), every 13th beyond, and every position within 6 bytes
+/// of a TLS record header of the client stream actually produced.
+fn split_positions(stream: &[u8], quick: bool) -> Vec<usize> {
+    let n = stream.len();
+    if !quick {
+        return (1..n + 6).collect();
+    }
+    let mut v: Vec<usize> = (1..n.min(1600)).collect();
+    let mut p = 1600;
+    while p < n {
+        v.push(p);
+        p += 13;
+    }
+    // record headers: the plaintext SSL request (36 bytes) is followed by TLS records
+    let mut off = 36;
+    while off + 5 <= n {
+        for d in 0..=6 {
+            if off + d < n {
+                v.push(off + d);
+            }
+            if off >= d && off - d > 0 {
+                v.push(off - d);
+            }
+        }
+        let len = (stream[off + 3] as usize) << 8 | stream[off + 4] as usize;
+        off += 5 + len;
+    }
+    for d in 0..6 {
+        v.push(n + d);
+    }
+    v.sort();
+    v.dedup();
+    v
+}
+
 struct Baseline {
     n: usize,
     first_flight: usize,
+    singles: Vec<usize>,
 }
 
 fn baseline(client_cert: bool) -> Baseline {
+    baseline_q(client_cert, false)
+}
+
+fn baseline_q(client_cert: bool, quick: bool) -> Baseline {
     let cfg = if client_cert { pki().server_client_auth.clone() } else { pki().server_plain.clone() };
     let o = run_tls(Some(cfg), client_cert, vec![], usize::MAX);
     Baseline {
         n: o.st.to_server.len(),
         first_flight: o.st.first_flight_end,
+        singles: split_positions(&o.st.to_server, quick),
     }
 }
 
@@ -390,7 +453,7 @@ struct Splits {
 impl Splits {
     fn cuts(&self, idx: u64) -> (Vec<usize>, usize) {
         match self.mode {
-            0 => (vec![idx as usize + 1], usize::MAX),
+            0 => (vec![self.base.singles[idx as usize]], usize::MAX),
             1 | 3 => {
                 // pairs a<b within the first flight (+ a little beyond), or over the whole stream
                 let m = if self.mode == 1 { (self.base.first_flight + 8) as u64 } else { (self.base.n + 4).min(1100) as u64 };
@@ -416,7 +479,7 @@ impl Family for Splits {
     }
     fn len(&self) -> u64 {
         match self.mode {
-            0 => (self.base.n + 6) as u64,
+            0 => self.base.singles.len() as u64,
             1 | 3 => {
                 let m = if self.mode == 1 { (self.base.first_flight + 8) as u64 } else { (self.base.n + 4).min(1100) as u64 };
                 m * (m - 1) / 2
@@ -551,7 +614,7 @@ impl Family for HelloSizes {
 
 /// the same splits with a TLS 1.2 client (two round trips, other record sequence)
 struct Tls12Splits {
-    base_n: usize,
+    positions: Vec<usize>,
     client_cert: bool,
 }
 impl Family for Tls12Splits {
@@ -559,26 +622,74 @@ impl Family for Tls12Splits {
         format!("tls12-single-splits-{}", if self.client_cert { "client-cert" } else { "no-client-cert" })
     }
     fn len(&self) -> u64 {
-        (self.base_n + 6) as u64
+        self.positions.len() as u64
     }
     fn run(&self, idx: u64, st: &mut Stats) -> Result<(), Violation> {
         st.nontrivial += 1;
         st.bump("tls12_handshakes");
         let cfg = if self.client_cert { pki().server_client_auth.clone() } else { pki().server_plain.clone() };
-        let cuts = vec![idx as usize + 1];
+        let cuts = vec![self.positions[idx as usize]];
         let o = run_tls_with(Some(cfg), self.client_cert, cuts.clone(), usize::MAX, 0, true);
         st.transitions += o.st.reads as u64;
         judge(&o, self.client_cert, &format!("TLS 1.2, cuts {:?}", cuts), st)
     }
     fn describe(&self, idx: u64) -> J {
-        json!({"tls": "1.2", "cuts": [idx + 1], "client_certificate": self.client_cert})
+        json!({"tls": "1.2", "cuts": [self.positions[idx as usize]], "client_certificate": self.client_cert})
+    }
+}
+
+
+/// other shapes of the SSL request and other connection-phase sequence ids: the pre-4.1 layout
+/// (which carries a user name in the clear - the name that counts is the one sent inside TLS),
+/// and (SSL request id, handshake id) pairs that are not 1, 2
+struct SslRequests;
+const SEQS: [(u8, u8); 6] = [(1, 2), (1, 9), (0, 1), (254, 255), (255, 0), (200, 7)];
+impl SslRequests {
+    fn case(idx: u64) -> (usize, (u8, u8), usize) {
+        let d = digits(idx, &[3, SEQS.len() as u64, 3]);
+        (d[0] as usize, SEQS[d[1] as usize], d[2] as usize)
+    }
+    fn request(kind: usize, seq: u8) -> (Vec<u8>, &'static str) {
+        let caps = CAP_LONG_PASSWORD | CAP_PROTOCOL_41 | CAP_SECURE_CONNECTION | CAP_SSL;
+        match kind {
+            0 => (frame(seq, &ssl_request(caps, 1 << 24, 0x21)).0, "4.1 SSL request"),
+            1 => (frame(seq, &handshake320(0x0805, 1 << 20, b"mallory", b"")).0, "pre-4.1 SSL request naming another user in the clear"),
+            _ => (frame(seq, &handshake320(0x0805, 1 << 20, b"", b"")).0, "pre-4.1 SSL request with an empty user name"),
+        }
+    }
+}
+impl Family for SslRequests {
+    fn name(&self) -> String {
+        "ssl-request-shapes-and-sequence-ids".into()
+    }
+    fn len(&self) -> u64 {
+        (3 * SEQS.len() * 3) as u64
+    }
+    fn run(&self, idx: u64, st: &mut Stats) -> Result<(), Violation> {
+        let (kind, (a, b), sched) = Self::case(idx);
+        let (req, what) = Self::request(kind, a);
+        let cuts = match sched {
+            0 => vec![],
+            1 => vec![req.len()],
+            _ => vec![5],
+        };
+        st.nontrivial += 1;
+        st.bump("ssl_request_variants");
+        let o = run_tls_full(Some(pki().server_plain.clone()), false, cuts.clone(), usize::MAX, 0, false, Some(req), b);
+        st.transitions += o.st.reads as u64;
+        judge_with(&o, false, &format!("{} with sequence id {}, handshake response inside TLS with id {}, cuts {:?}", what, a, b, cuts), b, st)
+    }
+    fn describe(&self, idx: u64) -> J {
+        let (kind, (a, b), sched) = Self::case(idx);
+        let sch = ["coalesced", "SSL request alone", "cut inside the SSL request"][sched];
+        json!({"ssl_request": Self::request(kind, a).1, "ssl_request_sequence_id": a, "handshake_response_sequence_id": b, "schedule": sch})
     }
 }
 
 pub fn build(quick: bool) -> Check {
     let mut families: Vec<Box<dyn Family>> = Vec::new();
     for cc in [false, true] {
-        families.push(Box::new(Splits { client_cert: cc, base: baseline(cc), mode: 0 }));
+        families.push(Box::new(Splits { client_cert: cc, base: baseline_q(cc, quick), mode: 0 }));
         families.push(Box::new(Splits { client_cert: cc, base: baseline(cc), mode: 2 }));
         families.push(Box::new(Splits { client_cert: cc, base: baseline(cc), mode: 1 }));
         if !quick {
@@ -586,16 +697,17 @@ pub fn build(quick: bool) -> Check {
         }
     }
     families.push(Box::new(HelloSizes::new(quick)));
+    families.push(Box::new(SslRequests));
     for cc in [false, true] {
         let cfg = if cc { pki().server_client_auth.clone() } else { pki().server_plain.clone() };
-        let n = run_tls_with(Some(cfg), cc, vec![], usize::MAX, 0, true).st.to_server.len();
-        families.push(Box::new(Tls12Splits { base_n: n, client_cert: cc }));
+        let stream = run_tls_with(Some(cfg), cc, vec![], usize::MAX, 0, true).st.to_server;
+        families.push(Box::new(Tls12Splits { positions: split_positions(&stream, quick), client_cert: cc }));
     }
     families.push(Box::new(NoConfig { base: baseline(false) }));
     Check {
         id: "C18",
         level: "model_checking",
-        rule: "a live rustls client inside the transport: SSLRequest (plaintext) immediately followed by the ClientHello, then, once the server's flight arrived, Finished (+ client certificate) coalesced with the encrypted HandshakeResponse41 and six pipelined commands, among them a 20000-byte query (several inbound TLS records) answered by a resultset with a 40000-byte cell and 250 rows (115 KB: several outbound records, more than rustls buffers unsent). Schedules: every single cut position of the whole client->server stream, every pair of cut positions within SSLRequest+ClientHello (thorough: every pair within the first 1100 bytes), uniform read sizes 1..64; with and without a client certificate; the single cuts again with a TLS 1.2 client; ClientHello sizes (padded with ALPN names) swept across 3.6-4.2 KB, 7.8-8.3 KB, 15.9-16.5 KB and up to 60 KB, coalesced with the SSL request or not; plus a TLS-requesting client against a shim without TLS configuration under every cut of its first flight. Oracle: user name and certificate chain at after_authentication, callback log = script, every server byte after the greeting lies in a well-formed TLS record the client accepts, decrypted replies decode strictly with the right sequence ids, run_on returns Ok; no-config case: Err and no callback.".into(),
+        rule: "a live rustls client inside the transport: SSLRequest (plaintext) immediately followed by the ClientHello, then, once the server's flight arrived, Finished (+ client certificate) coalesced with the encrypted HandshakeResponse41 and six pipelined commands, among them a 20000-byte query (several inbound TLS records) answered by a resultset with a 40000-byte cell and 250 rows (115 KB: several outbound records, more than rustls buffers unsent). Schedules: every single cut position of the whole client->server stream (quick: every position of the first 1600 bytes and within 6 bytes of each TLS record header, every 13th elsewhere), every pair of cut positions within SSLRequest+ClientHello (thorough: every pair within the first 1100 bytes), uniform read sizes 1..64; with and without a client certificate; the single cuts again with a TLS 1.2 client; ClientHello sizes (padded with ALPN names) swept across 3.6-4.2 KB, 7.8-8.3 KB, 15.9-16.5 KB and up to 60 KB, coalesced with the SSL request or not; SSL requests in the pre-4.1 layout (naming another user in the clear) and connection-phase sequence ids other than 1, 2; plus a TLS-requesting client against a shim without TLS configuration under every cut of its first flight. Oracle: user name and certificate chain at after_authentication, callback log = script, every server byte after the greeting lies in a well-formed TLS record the client accepts, decrypted replies decode strictly with the right sequence ids, run_on returns Ok; no-config case: Err and no callback.".into(),
         assumptions: vec![
             "ring's randomness is not owned: handshake bytes differ between runs and with a client certificate the stream length varies by a byte or two; cut positions are taken from the stream actually produced, the verdict does not depend on the random values".into(),
             "flush behaviour is C12's subject; here written bytes are visible to the client at once".into(),
@@ -604,6 +716,6 @@ pub fn build(quick: bool) -> Check {
         exhaustive: true,
         caps_hit: vec![],
         families,
-        required: vec!["client_hello_beyond_4096_bytes", "client_hello_in_two_records", "tls12_handshakes", "splits_inside_client_hello", "splits_inside_ssl_request", "ssl_request_coalesced_with_client_hello", "client_chains_delivered", "refusals", "tls_records_from_server"],
+        required: vec!["ssl_request_variants", "client_hello_beyond_4096_bytes", "client_hello_in_two_records", "tls12_handshakes", "splits_inside_client_hello", "splits_inside_ssl_request", "ssl_request_coalesced_with_client_hello", "client_chains_delivered", "refusals", "tls_records_from_server"],
     }
 }
